@@ -175,6 +175,9 @@ func (its *mapSnapshot) putCommonWithTimedType(key string, newOne timedType) (o 
 	}
 
 	if oldOne.getTime().Compare(newOne.getTime()) < 0 {
+		if oldOne.isTomb() && !newOne.isTomb() {
+			its.Size++ // a removed key becomes live again
+		}
 		its.Map[key] = newOne
 		return oldOne, newOne
 	}
